@@ -896,3 +896,18 @@ theorem atom_owns_row (env : NsfEnv α) (t : NsfTables) (hnd : (t.rows.map nsfKe
 end
 
 end PtLoad
+
+/-! ## vocabulary of the property statements -/
+namespace PtLoad
+
+/-- elements without a row of their own and exactly one isotope row: that isotope -/
+def singleIsotope (rows : List NsfRow) (z : Nat) : Option Nat :=
+  match rows.filter (fun r => r.z == z) with
+  | [r] => if r.a = 0 then none else some r.a
+  | _ => none
+
+/-- `element.neutron` (a = 0) or `element[a].neutron` -/
+def atomRec {α : Type} [OfNat α 0] (st : NsfState α) (z a : Nat) : NRec α :=
+  if a = 0 then st.elNeutron z else st.isoNeutron z a
+
+end PtLoad
